@@ -100,7 +100,7 @@ pub const FIELDS: &[&str] = &["coord", "ptdelta", "compoff", "compscale", "advan
 const TSB_VALS: &[(f64, f64)] = &[(30000.0, -2767.0), (30000.0, -2768.0), (30000.0, -5000.0), (-20000.0, 12768.0), (-20000.0, 12769.0),
                                   (-20000.0, 15000.0), (32767.0, -1.0), (32767.0, 0.0), (20000.0, -20000.0), (-32768.0, 1.0)];
 /// yMin of a tall glyph a (yMax = 0, vertical origin 16000, advance height 1000): yMaxExtent = 16000 - yMin, bottom side bearing = -15000 + yMin
-const VEXT_VALS: &[f64] = &[-16767.0, -16768.0, -17768.0, -17769.0, -20000.0, -16000.0, -25000.0, -32768.0];
+const VEXT_VALS: &[f64] = &[-16767.0, -16768.0, -17768.0, -17769.0, -20000.0, -16000.0, -25000.0, -32767.0];
 /// x offset of the component (glyph a spans x = 200..300): composite xMin = off + 200, xMax = off + 300
 const CBOX_VALS: &[f64] = &[32467.0, 32468.0, 32567.0, 32568.0, 32767.0, -32968.0, -32969.0, -32767.0, 32000.0, -33000.0];
 
@@ -272,7 +272,7 @@ pub fn gen_case(rng: &mut Rng, i: usize) -> Case {
             Case { field, vals: vec![vorg, ymax], sub: String::new(), design: d, big: false }
         }
         "vextent" => {
-            let ymin = if j < VEXT_VALS.len() { VEXT_VALS[j] } else { -(rng.range(15000, 32768) as f64) };
+            let ymin = if j < VEXT_VALS.len() { VEXT_VALS[j] } else { -(rng.range(15000, 32767) as f64) };
             let mut d = base_design(false, true);
             d.masters[0].info.push(("openTypeOS2TypoAscender".to_string(), 16000.0));
             d.masters[0].glyphs.get_mut("a").unwrap().contours = vec![vec![line(300.0, ymin), line(400.0, ymin + 50.0), line(350.0, 0.0)]];
